@@ -50,7 +50,7 @@ claim("C12", "K (Kani) + S (symfield)", "Kani over all 32-byte scalars for the B
       "Booth digits/telescoping for all scalars and window sizes 1..16; the real generic msm_serial at toy groups with 1-, 2- and 3-byte scalar fields (all scalars, 1..4 bases); best_fft = DFT matrix for n = 2..64 under several thread pools; EvaluationDomain conversions/rotations/division/interpolation for all vector entries; batch-affine addition on a toy curve for all points.",
       "Trusted: LinF/SymF models, Kani. Outside: blst multi_exp, thread schedules beyond those run, sizes beyond the bounds.", "DESIGN 3 C12, 8")
 claim("C14", "S (symfield)", "real KZG multi_prepare executed on a symbolic pairing engine (discrete-log model); guard polynomial identity decided after normalisation by SMT",
-      "Completeness identity, DuplicatedQuery and eval-binding of the real multi_prepare for all assignment patterns of <= 3 points to 1 chopped + <= 3 one-piece commitments, symbolic polynomials and toxic waste.",
+      "Completeness identity, DuplicatedQuery and eval-binding of the real multi_prepare for all assignment patterns of <= 3 points to 1 chopped + <= 3 one-piece commitments, and for 207 query lists with 2 chopped commitments at equal and different points, symbolic polynomials and toxic waste.",
       "Trusted: symbolic pairing model, specification prover written from the halo2 book. Outside: q-SDH/AGM soundness, multi_open's MSM.", "DESIGN 3 C14")
 claim("C15", "S (symfield) + K (Kani)", "real DualMSM/MSMKZG fold executed on the symbolic pairing engine; linearity decided by SMT",
       "Narrow: the batching fold is the documented linear combination (scale/add linear, every member included).",
